@@ -85,7 +85,16 @@ def drive(rec, s, fac):
         for i in range(n):
             root = W9.build(s, f)
             node = S.nodes_preorder(root)[i]
+            around = [x for x in (node, node.parent, node.parent.parent if node.parent is not None else None) if x is not None]
+            if i % 2 == 0:
+                for x in around:          # the look-ups are asked before the rotation ...
+                    x.get_children()
+                    x.get_sibling()
             node.rotate()
+            for x in around:              # ... and after it (decided by the look-up monitors)
+                x.get_children()
+                x.get_sibling()
+                x.get_root()
             # rotate back (another rotation of the old parent, now a child of `node`)
             if kn == "raw" and i > 0:
                 back = node.right if (node.right is not None and node.right.parent is node and i % 2) else None
@@ -95,6 +104,7 @@ def drive(rec, s, fac):
 
 def run(rec, cfg):
     MT.attach_rotate("C15")
+    MT.attach_queries("C15")   # after a rotation the public look-ups (children, sibling, root, side) agree with the new links
     fac = factories()
     nmax = cfg.scale(9, 11)
     idx = 0
